@@ -32,6 +32,7 @@ import (
 	"testing"
 	"time"
 
+	"github.com/ipfs/boxo/bitswap"
 	testinstance "github.com/ipfs/boxo/bitswap/testinstance"
 	tn "github.com/ipfs/boxo/bitswap/testnet"
 	"github.com/ipfs/boxo/exchange"
@@ -71,6 +72,17 @@ type Case struct {
 	Place   [][]int `json:"place"`    // holders of block i (never a node that requests it); empty = nobody has it
 	LateMs  []int   `json:"late_ms"`  // block i is stored on its holders this many ms after the start (0 = before)
 	Reqs    []Req   `json:"reqs"`
+	// Configuration of every node (0 = library default): bitswap.ProviderSearchDelay (the idle
+	// tick after which a session re-broadcasts its live wants, default 1 s) and
+	// bitswap.RebroadcastDelay (period of a session's provider search / re-broadcast of one
+	// live want, default 1 min). Short values make these timers fire within a case.
+	SearchMs      int `json:"search_ms,omitempty"`
+	RebroadcastMs int `json:"rebroadcast_ms,omitempty"`
+	// HoldMs > 0: when the requests of a phase have ended and the want-list was seen clean, the
+	// sessions of the case stay open for this long (their timers fire) and the want-list has to
+	// be clean after that, too: "no longer contains those CIDs" is not over when the first look
+	// finds the list empty.
+	HoldMs int `json:"hold_ms,omitempty"`
 }
 
 func blockOf(i, size int) blocks.Block {
@@ -184,6 +196,18 @@ func gen(t *rapid.T) Case {
 			c.Reqs = append(c.Reqs, q)
 		}
 	}
+	// configuration: in half of the cases short session timers, so that idle ticks and periodic
+	// searches happen while requests run; if the case has a long-lived session (NewSession) the
+	// sessions are then held open across at least two periods after every phase
+	if rapid.IntRange(0, 1).Draw(t, "timers") == 0 {
+		c.SearchMs = rapid.SampledFrom([]int{5, 10, 20, 30}).Draw(t, "searchms")
+		c.RebroadcastMs = rapid.SampledFrom([]int{10, 15, 25}).Draw(t, "rebroadcastms")
+		for _, q := range c.Reqs {
+			if q.Kind == "session" {
+				c.HoldMs = 2*max(c.SearchMs, c.RebroadcastMs) + 10
+			}
+		}
+	}
 	return c
 }
 
@@ -212,6 +236,9 @@ type outcome struct {
 }
 
 func valid(c Case) bool {
+	if c.SearchMs < 0 || c.RebroadcastMs < 0 || c.HoldMs < 0 || c.HoldMs > 2000 {
+		return false
+	}
 	if c.Nodes < 2 || c.Nodes > 6 || len(c.Sizes) == 0 || len(c.Place) != len(c.Sizes) || len(c.LateMs) != len(c.Sizes) || len(c.Reqs) == 0 {
 		return false
 	}
@@ -254,7 +281,14 @@ func attempt(c Case, allowance time.Duration) outcome {
 
 	net := tn.VirtualNetwork(delay.Fixed(time.Duration(c.DelayMs) * time.Millisecond))
 	router := mockrouting.NewServer()
-	ig := testinstance.NewTestInstanceGenerator(net, router, nil, nil)
+	var opts []bitswap.Option
+	if c.SearchMs > 0 {
+		opts = append(opts, bitswap.ProviderSearchDelay(time.Duration(c.SearchMs)*time.Millisecond))
+	}
+	if c.RebroadcastMs > 0 {
+		opts = append(opts, bitswap.RebroadcastDelay(time.Duration(c.RebroadcastMs)*time.Millisecond))
+	}
+	ig := testinstance.NewTestInstanceGenerator(net, router, nil, opts)
 	insts := ig.Instances(c.Nodes)
 	defer func() {
 		for _, in := range insts {
@@ -593,9 +627,24 @@ func attempt(c Case, allowance time.Duration) outcome {
 		}
 		until := time.Now().Add(cleanup)
 		clean := 0
+		hold := time.Duration(c.HoldMs) * time.Millisecond
+		if allowance != firstAllowance {
+			hold *= 5 // confirmation run: timers may fire late on a busy machine
+		}
+		held := time.Duration(0)
 		for {
 			node, l, notInWhole := lingering()
 			if node < 0 {
+				if hold > 0 && held == 0 {
+					// seen clean once: every request is over, the sessions stay open. Let the session
+					// timers (idle tick, periodic search) fire, then the list has to be clean again
+					// (a want that comes back and goes away again during the hold is not judged).
+					time.Sleep(hold)
+					held = hold
+					until = time.Now().Add(cleanup)
+					clean = 0
+					continue
+				}
 				// before a further phase starts the list has to be seen clean three times in a row
 				// (work left over from the ended requests should not run into the next phase)
 				clean++
@@ -618,6 +667,9 @@ func attempt(c Case, allowance time.Duration) outcome {
 				where := "reported by GetWantlist()"
 				if len(notInWhole) > 0 {
 					where = fmt.Sprintf("blocks %v reported by GetWantBlocks()/GetWantHaves() only, not by GetWantlist()", notInWhole)
+				}
+				if held > 0 {
+					where += fmt.Sprintf("; the list had been seen clean, then the sessions were kept open for %v (ProviderSearchDelay %d ms, RebroadcastDelay %d ms; 0 = default) and the CIDs were on the list again", held, c.SearchMs, c.RebroadcastMs)
 				}
 				setSuspect("want-list of node %d still holds blocks %v %v after all its requests (phases 0..%d) completed or were cancelled (%s; delivered to every asker: %v; outstanding at a cancellation: %v)", node, l, cleanup, phase, where, deliv, outst)
 				mu.Lock()
@@ -701,6 +753,24 @@ func attempt(c Case, allowance time.Duration) outcome {
 	}
 	if lastPhase > 0 {
 		o.classes = append(o.classes, "two-phases")
+	}
+	if c.SearchMs > 0 || c.RebroadcastMs > 0 {
+		o.classes = append(o.classes, "short-session-timers")
+	}
+	if c.HoldMs > 0 {
+		o.classes = append(o.classes, "sessions-held-open-after-cleanup")
+		for _, q := range c.Reqs {
+			d := map[int]bool{}
+			un := false
+			for _, k := range q.Keys {
+				d[k] = true
+				un = un || len(c.Place[k]) == 0
+			}
+			if q.Kind == "session" && ((q.Cancel >= 0 && q.Cancel < len(d)) || un) {
+				o.classes = append(o.classes, "sessions-held-open-after-cleanup:session-request-cancelled-with-wants-outstanding")
+				break
+			}
+		}
 	}
 	for _, q := range c.Reqs {
 		big := false
